@@ -48,7 +48,12 @@ IntoMetas ==
 MetasFor(c) ==
   LET ts == IF c.pos = "type" THEN (c.inject \cup {"Bogus"}) ELSE Traits13
       unsSet == IF c.pos = "type" THEN {"no", "first"} ELSE {"no"}
-  IN (IF "Into" \in c.educed THEN IntoMetas ELSE {})
+  IN IF c.light
+     THEN { [t |-> t, form |-> "path", val |-> NoVal, uns |-> "no", params |-> <<>>, ty |-> "-"] : t \in Traits13 }
+          \cup { [t |-> t, form |-> "list", val |-> NoVal, uns |-> "no", params |-> <<>>, ty |-> "-"] : t \in Traits13 }
+          \cup { [t |-> t, form |-> "nv", val |-> "ident", uns |-> "no", params |-> <<>>, ty |-> "-"] : t \in Traits13 }
+     ELSE
+     (IF "Into" \in c.educed THEN IntoMetas ELSE {})
      \cup { [t |-> t, form |-> "path", val |-> NoVal, uns |-> "no", params |-> <<>>, ty |-> "-"] : t \in ts }
      \cup { [t |-> t, form |-> "nv", val |-> v, uns |-> "no", params |-> <<>>, ty |-> "-"] : t \in ts, v \in ValSet }
      \cup { [t |-> t, form |-> "list", val |-> NoVal, uns |-> u, params |-> <<>>, ty |-> "-"] : t \in ts, u \in unsSet }
@@ -115,7 +120,20 @@ Terminates == phase = "done" => st.verdict \in {"ok", "err"}
 \* ---------------------------------------------------------------- contexts
 E1 == {"Debug", "Clone", "PartialEq", "Eq", "PartialOrd", "Ord", "Hash", "Default"}
 Ctx(k, pos, ed, shown, build, texpr, inj, base) ==
-  [kind |-> k, pos |-> pos, educed |-> ed, shown |-> shown, build |-> build, texpr |-> texpr, inject |-> inj, base |-> base]
+  [kind |-> k, pos |-> pos, educed |-> ed, shown |-> shown, build |-> build, texpr |-> texpr, inject |-> inj, base |-> base, light |-> FALSE]
+\* a context in which one trait is educed alone: its handler's own scan of the variant / field attributes is the only
+\* one that can refuse a foreign or unknown trait name there (next to other traits a lazy handler hides behind them);
+\* only the short forms are injected
+CtxL(k, pos, t, shown, base) ==
+  [kind |-> k, pos |-> pos, educed |-> {t}, shown |-> shown, build |-> TRUE, texpr |-> FALSE, inject |-> {}, base |-> base, light |-> TRUE]
+AloneTraits == AllTraits \ {"Into"}
+ContextsAlone ==
+  { CtxL("struct", "field", t, "key", "struct1_named") : t \in AloneTraits }
+  \cup { CtxL("struct", "field", t, "pos", "struct1_tuple") : t \in AloneTraits }
+  \cup { CtxL("enum", p, t, "key", "enum1_named1") : t \in AloneTraits, p \in {"field", "variant"} }
+  \cup { CtxL("enum", p, t, "pos", "enum1_tuple1") : t \in AloneTraits, p \in {"field", "variant"} }
+  \cup { CtxL("struct", "field", t, "key", "struct_named") : t \in AloneTraits \ {"Deref", "DerefMut"} }
+  \cup { CtxL("enum", p, t, "pos", "enum1_tuple") : t \in AloneTraits \ {"Deref", "DerefMut"}, p \in {"field", "variant"} }
 
 ContextsQuick ==
   { Ctx("struct", "type", E1, "key", TRUE, FALSE, E1, "struct_named"),
@@ -155,7 +173,7 @@ ContextsMore ==
     Ctx("enum", "field", {"Default"}, "key", FALSE, FALSE, {}, "enum2_nobuild"),
     Ctx("enum", "variant", {"Default"}, "key", TRUE, TRUE, {}, "enum1_named_texpr") }
 
-ContextsQuickAll == ContextsQuick \cup ContextsInto
+ContextsQuickAll == ContextsQuick \cup ContextsInto \cup ContextsAlone
 
 ValsQuick == {"bool_t", "bool_f", "ident", "str_ident", "str_empty", "int", "negint", "path2", "preds", "str_preds", "star", "call"}
 =============================================================================
